@@ -21,7 +21,7 @@ from registry import PROPS, stages_for
 BUILD = os.path.join(VERIF, "build")
 NCPU = int(os.environ.get("VERIF_JOBS", "16"))
 CXX = ["clang++", "-std=gnu++17", "-O1", "-g", "-fno-omit-frame-pointer", "-I" + VERIF]
-SANMAP = {"asan": B.SAN.split()[3:], "tsan": ["-fsanitize=thread"], "plain": [],
+SANMAP = {"asan": B.SAN.split()[3:], "tsan": ["-fsanitize=thread"], "plain": ["-gdwarf-4"],
           "fuzz": ["-fsanitize=fuzzer,address,undefined", "-fno-sanitize-recover=undefined"]}
 
 
@@ -192,7 +192,25 @@ def write_replay(pid, stage, f, extra=None):
     return path
 
 
+CTX = {}
+
+
 def replay_case(exe, case, datadir, extra_args=None):
+    import runners
+    if case.startswith("vg="):
+        return runners.replay_valgrind(CTX, case)
+    if case.startswith("cg="):
+        return runners.replay_callgrind(CTX, case)
+    if case.startswith("fuzz=x") or case.startswith("cli=x"):
+        d = os.path.join(CTX["scr"].dir, "out")
+        os.makedirs(d, exist_ok=True)
+        fn = os.path.join(d, "replay-input.bin")
+        open(fn, "wb").write(bytes.fromhex(case.split("=x", 1)[1].split()[0]))
+        if case.startswith("cli=x"):
+            return runners.replay_cli(CTX, fn)
+        env = san_env(); env.update(VF_OUT=d, VF_STAGE="replay", VF_WORKER="0")
+        p = subprocess.run([exe, fn], stdout=subprocess.PIPE, stderr=subprocess.STDOUT, env=env, text=True, errors="replace", cwd=d)
+        return (3 if p.returncode != 0 else 0), p.stdout[-2500:]
     pre = exe if isinstance(exe, list) else [exe]
     outd = os.path.join(os.path.dirname(datadir.rstrip("/")), "..", "out")
     os.makedirs(outd, exist_ok=True)
@@ -255,6 +273,7 @@ def main():
         variants = sorted({v for b in P["binaries"].values() for v in b.get("variants", [])})
         scr.build_variants(variants)
         ctx = dict(scr=scr, datadir=os.path.join(scr.src, "data"), tier=a.tier, seed=a.seed)
+        CTX.update(ctx)
         if P.get("prepare"):
             P["prepare"](ctx)
         exes = {}
@@ -262,6 +281,8 @@ def main():
             futs = {name: ex.submit(link, scr, name, b) for name, b in P["binaries"].items()}
             for name, f in futs.items():
                 exes[name] = f.result()
+        ctx["exes"] = exes
+        CTX.update(ctx)
         datadir = ctx["datadir"]
         outdir = os.path.join(scr.dir, "out")
         os.makedirs(outdir, exist_ok=True)
